@@ -6,7 +6,7 @@
    "complete without error": the model's editors are total functions; runtime
    exceptions of the implementation can only be searched (oracle). *)
 From Coq Require Import List ZArith QArith Bool Arith Sorted.
-From PV Require Import Model.Types Model.Sim Model.LogEdit Proofs.Base Proofs.C0708Proof Proofs.C18Proof Proofs.C18Extra Proofs.C18Dead.
+From PV Require Import Model.Types Model.Sim Model.LogEdit Proofs.Base Proofs.C0708Proof Proofs.C18Proof Proofs.C18Extra Proofs.C18Dead Proofs.C18Res.
 Import ListNotations.
 Open Scope nat_scope.
 
@@ -128,3 +128,13 @@ Theorem C18_inserted_steps_cost_nothing : forall c l ab s j, Lens c s (time s) -
   /\ (forall g, g < nTeam c -> nth j (teaml s' g) 1%Q = 0%Q).
 Proof. exact inserted_steps_cost_nothing. Qed.
 Print Assumptions C18_inserted_steps_cost_nothing.
+
+(* and a dead step of every worker and facility: cost entry 0, logged state
+   FREE (the value the editors of BaseWorker / BaseFacility insert) *)
+Theorem C18_inserted_steps_are_dead_for_resources : forall c l ab s j, Lens c s (time s) ->
+  In j (new_steps ab [] l) -> j < time s ->
+  let s' := snd (insert_absence c l (ab, s)) in
+  (forall w, w < nW c -> nth j (rl_cost (wl s' w)) 1%Q = 0%Q /\ nth j (rl_st (wl s' w)) RWorking = RFree)
+  /\ (forall f, f < nF c -> nth j (rl_cost (fl s' f)) 1%Q = 0%Q /\ nth j (rl_st (fl s' f)) RWorking = RFree).
+Proof. exact inserted_steps_are_dead_for_resources. Qed.
+Print Assumptions C18_inserted_steps_are_dead_for_resources.
